@@ -52,6 +52,7 @@ def model_check_run(with_faults=True):
         if line.startswith('"R|'):
             body, verdict = line[3:-1].rsplit("|", 1)
             tuples.append((json.loads(body.replace('\\"', '"')), verdict))
+    tuples.sort(key=lambda tv: json.dumps(tv[0], sort_keys=True))       # (TLC's workers print in no particular order)
     if tlc.tlc_failed(rc, out) or not tuples:
         raise common.MachineryError("MC_Run failed:\n" + "\n".join(l for l in out.splitlines() if not l.startswith('"R|'))[-3000:])
     return res, tuples
@@ -83,9 +84,19 @@ def inputs(rnd, tier):
     income = [h for h in full if all(x["cls"] == "in" and x["type"] == "interest" for x in h)]
     sparse = [h for h in full if len({(x["t"] // 86400) // 365 for x in h}) >= 3]
     mixed = [h for h in full if {x["cls"] for x in h} == {"in", "out", "intra"}]
+    # several exchanges and holders (joint filing), crypto-fee acquisitions, every transaction type
+    hm, dm, tm, _ = gen.histories("M", 3)
+    joint = [h for h in hm if len(h) == 3 and len({x["a1"] % 10 for x in h if x["cls"] == "in"}) >= 2]
+    hf, df, tf, _ = gen.histories("F", 3)
+    feey = [h for h in hf if len(h) == 3 and any(x["cls"] == "in" and x["fee"] > 0 for x in h)]
+    ht, dt, tt, _ = gen.histories("T", 3)
+    typed = [h for h in ht if len(h) == 3 and any(x["cls"] == "in" for x in h)]
+    dist, trans = dist + dm + df + dt, trans + tm + tf + tt
     n = 2 if tier == "quick" else 8
     res = []
     for _ in range(n):
+        res.append(("joint_filing", {"B1": rnd.choice(joint or full), "B2": rnd.choice(joint or full)}))
+        res.append(("crypto_fees_and_types", {"B1": rnd.choice(feey or full), "B2": rnd.choice(typed or full)}))
         res.append(("single", {"B1": rnd.choice(mixed or full)}))
         res.append(("multi", {"B1": rnd.choice(full), "B2": rnd.choice(sparse or full), "B3": rnd.choice(mixed or full)}))
         res.append(("sparse_years", {"B1": rnd.choice(sparse or full)}))
@@ -159,9 +170,13 @@ def apply_fault(job, fault, rnd):
             text += "\n[surprise]\nx = 1\n"
         elif fault == "config_no_assets":
             text = "\n".join(l for l in text.splitlines() if not l.startswith("assets")) + "\n"
+        elif fault == "config_not_ini":
+            text = "\n".join(l for l in text.splitlines() if not l.startswith("[")) + "\n"       # no section header at all
         elif fault == "config_json":
             text = json.dumps({"in_header": lay["in"], "out_header": lay["out"], "intra_header": lay["intra"], "assets": sorted(job["assets"]), "exchanges": ["Exa"], "holders": ["Hoa"]})
         job["ini_text"] = text
+    elif fault == "input_not_a_spreadsheet":
+        job["corrupt_input"] = True
     elif fault == "asset_without_sheet":
         job["config_assets"] = sorted(set(job["assets"]) | {"B9"})
     elif fault == "overdraft":
@@ -390,10 +405,20 @@ def run_c18(tier):
         for n, t in enumerate(rnd.sample(mine, 4 if q else 30)):
             job = make_run_job(t, ins[n % len(ins)][1], rnd, mode="exec")
             job["audit"] = True
+            if n % 2 == 1:
+                # the output directory already holds entries named like this run's reports: stale files, and symbolic links to files kept elsewhere
+                tag = (job.get("sched") and (job["sched"][0][1] if len(job["sched"]) == 1 else "mixed")) or job["args"].get("method") or "fifo"
+                reports = ["open_positions", "rp2_full_report"] + {"us": ["tax_report_us"], "ie": ["tax_report_ie"], "jp": ["tax_report_jp"]}.get(c, [])
+                job["pre_links"] = {f"{tag}_{reports[n % len(reports)]}.ods": f"filed_{reports[n % len(reports)]}.ods"}
+                job["pre_files"] = {f"{tag}_{reports[(n + 1) % len(reports)]}.ods": "stale, not even a zip\n"}
             jobs.append(job)
         bad = [t for t in faulty if t["country"] == c]
         faults = sorted({t["fault"] for t in bad})
-        for n, fault in enumerate(faults if not q else rnd.sample(faults, 6)):
+        # quick: one representative of every way of failing (option parsing, missing file, config that is not INI at all, config rejected by
+        # rp2's own validation, sheet structure, field value, computation), plus a few more at random
+        always = ["unknown_option", "missing_input_file", "config_json", "config_not_ini", "input_not_a_spreadsheet", "config_missing_section", "sheet_missing_end", "field_non_numeric", "overspend"]
+        chosen = [f for f in always if f in faults] + rnd.sample([f for f in faults if f not in always], 2)
+        for n, fault in enumerate(faults if not q else chosen):
             t = rnd.choice([x for x in bad if x["fault"] == fault])
             job = apply_fault(make_run_job(t, ins[n % len(ins)][1], rnd, mode="exec"), fault, rnd)
             job["audit"] = True
